@@ -138,6 +138,26 @@ pub fn record(mode: &str, seed: u64, n: usize, out: &mut Out) {
         }
         return;
     }
+    {
+        // one long stream with more distinct context ids than fit 16 bits: every message must still be counted under its id
+        let n_ids = 66_000usize + r.below(500) as usize;
+        let mut stream = Vec::with_capacity(n_ids * 18);
+        for i in 0..n_ids {
+            stream.extend([0x21u8, i as u8, 0, 18, 0x41, 0, b'A', b'P', b'P', 0]);
+            let c = [b'0' + (i % 41) as u8, b'0' + (i / 41 % 41) as u8, b'0' + (i / 1681 % 41) as u8, b'0' + (i / 68921 % 41) as u8];
+            stream.extend(c);
+            stream.extend([1, 2, 3, 4]);
+        }
+        let res = catch_unwind(AssertUnwindSafe(|| collect(&stream, false)));
+        let sum = |t: &Vec<(String, LevelDistribution)>| -> usize { t.iter().map(|(_, d)| d.non_log + d.log_fatal + d.log_error + d.log_warning + d.log_info + d.log_debug + d.log_verbose + d.log_invalid).sum() };
+        let res = match res {
+            Ok(Ok(i)) => json!({"v": "ok", "ctx_entries": i.context_ids.len(), "ctx_total": sum(&i.context_ids), "app_entries": i.app_ids.len(), "app_total": sum(&i.app_ids), "ecu_total": sum(&i.ecu_ids)}),
+            Ok(Err(_)) => json!({"v": "err"}),
+            Err(_) => json!({"v": "panic"}),
+        };
+        out.calls += 1;
+        out.emit(json!({"op": "manyids", "n": n_ids, "res": res}), true);
+    }
     for _ in 0..n {
         let sh = r.coin();
         let nm = r.below(7) as usize;
